@@ -14,10 +14,10 @@ TECHNIQUE = ('exhaustive enumeration of all angle histories up to depth 3/4 over
              '(two representatives per open interval between the finitely many gate values) against a reference automaton')
 RULE = ('boundary sets {[0,180,360],[0,160,360],[0,120,240,360]} x buffers {0,1,15,45,59.5,60,75,85,89,90,95,100,110,119,120,150,179} '
         'within range x all angle sequences of length 1..3 (T: ..4) over the region alphabet (2 representatives of every open '
-        'interval between consecutive critical values 0,B_i,B_i+-b,b,360-b,360); transitions(): all 1-D sequences len<=5 over 3 '
+        'interval between consecutive critical values 0,B_i,B_i+-b,b,360-b,360, plus the hard boundaries themselves when they are not gates); transitions(): all 1-D sequences len<=5 over 3 '
         'states, all matrices up to 3x3 and 2x4 (T: 3x4) over {0,1,2}; state=(boundaries,buffer,angle sequence); non-trivial = '
         'sequence on which the hysteresis answer differs from plain binning')
-ASSUMPTIONS = ['angles equal to a gate value are excluded, as the property allows',
+ASSUMPTIONS = ['angles equal to a gate value (B_i +- buffer mod 360) are excluded, as the property allows; hard boundaries are included when buffer > 0',
                'the region alphabet is exact: all comparisons in the code are against the listed critical values, so two angles '
                'in the same open interval are indistinguishable to the implementation']
 GUARDS = {'hysteresis_differs_from_binning': 1000, 'wide_buffer_wraps': 1000, 'wraparound_stay': 1000,
@@ -49,7 +49,16 @@ def alphabet(B, b):
         w = c2 - c1
         if w > 1e-9:
             reps += [c1 + w / 4, c2 - w / 4]
-    return reps
+    # only the GATE values (B_i +- b, b, 360-b) are excluded by the statement; with a non-zero buffer the hard
+    # boundaries themselves (0, B_i) are ordinary angles - they belong to the basin above them ([lo, hi) convention)
+    gates = {float(b) % 360, (360.0 - b) % 360}
+    for x in B:
+        gates.update({(x - b) % 360.0, (x + b) % 360.0})
+    if b > 0:
+        for x in B[:-1]:
+            if float(x) not in gates:
+                reps.append(float(x))
+    return sorted(reps)
 
 
 def basin_of(a, B):
